@@ -472,14 +472,21 @@ func c08BuildTrace(spans [][]c08Field, root int, traceID string) (*types.Trace, 
 	return tr, cqSpans, cqRoot, tabs
 }
 
-func c08Run(raw json.RawMessage) (Case, error) {
-	var in c08Input
-	if err := json.Unmarshal(raw, &in); err != nil {
-		return Case{}, err
-	}
-	os.Setenv("GODEBUG", "randseednop=0")
-	tr, cqSpans, cqRoot, tabs := c08BuildTrace(in.Spans, in.Root, in.TraceID)
+// c08Built is a started RulesBasedSampler together with the Gallina text of its configuration and
+// of the oracle values (downstream sampler outcome, rand.Intn draw) of every rule.
+type c08Built struct {
+	s                     *sample.RulesBasedSampler
+	cqRules, cqDs, cqDraw []string
+	tags                  map[string]bool
+	nconds                int
+	stop                  func()
+}
 
+func c08BuildSampler(rules []c08Rule, seed int64, tr *types.Trace, tabs *oracleTabs) (*c08Built, error) {
+	in := struct {
+		Rules []c08Rule
+		Seed  int64
+	}{rules, seed}
 	rcfg := &config.RulesBasedSamplerConfig{}
 	var cqRules, cqDs, cqDraw []string
 	tags := map[string]bool{}
@@ -503,7 +510,7 @@ func c08Run(raw json.RawMessage) (Case, error) {
 			d := &sample.DeterministicSampler{Config: &config.DeterministicSamplerConfig{SampleRate: ru.Sampler},
 				Logger: &logger.NullLogger{}, Metrics: &metrics.NullMetrics{}}
 			if err := d.Start(); err != nil {
-				return Case{}, err
+				return nil, err
 			}
 			rate, keep, reason, key := d.GetSampleRate(tr)
 			ds = cq.Some(cqOutcome(uint64(rate), keep, reason, key))
@@ -525,13 +532,29 @@ func c08Run(raw json.RawMessage) (Case, error) {
 	mm.Start()
 	factory := &sample.SamplerFactory{Logger: &logger.NullLogger{}, Metrics: mm}
 	if err := factory.Start(); err != nil {
-		return Case{}, err
+		return nil, err
 	}
-	defer factory.Stop()
 	s := &sample.RulesBasedSampler{Config: rcfg, Logger: &logger.NullLogger{}, Metrics: mm, SamplerFactory: factory}
 	if err := s.Start(); err != nil {
+		return nil, err
+	}
+	return &c08Built{s: s, cqRules: cqRules, cqDs: cqDs, cqDraw: cqDraw, tags: tags, nconds: nconds, stop: factory.Stop}, nil
+}
+
+func c08Run(raw json.RawMessage) (Case, error) {
+	var in c08Input
+	if err := json.Unmarshal(raw, &in); err != nil {
 		return Case{}, err
 	}
+	os.Setenv("GODEBUG", "randseednop=0")
+	tr, cqSpans, cqRoot, tabs := c08BuildTrace(in.Spans, in.Root, in.TraceID)
+
+	built, err := c08BuildSampler(in.Rules, in.Seed, tr, tabs)
+	if err != nil {
+		return Case{}, err
+	}
+	defer built.stop()
+	s, cqRules, cqDs, cqDraw, tags, nconds := built.s, built.cqRules, built.cqDs, built.cqDraw, built.tags, built.nconds
 	rand.Seed(in.Seed)
 	rate, keep, reason, key := s.GetSampleRate(tr)
 
